@@ -5,6 +5,7 @@ import (
 	"go/token"
 	"go/types"
 	"os"
+	"reflect"
 	"sort"
 	"strings"
 
@@ -27,13 +28,13 @@ type Program struct {
 
 	df map[*ssa.Function]*funcFacts // cached dataflow per function
 
-	callers   map[*ssa.Function][]Call
-	alias     map[*ssa.Function]string // renamed function -> recorded identity
-	Renames   []string
-	Normalized []string // new helpers inlined by the normalisation pre-pass (normalize.go)
-	addrTaken map[*ssa.Function]bool
+	callers        map[*ssa.Function][]Call
+	alias          map[*ssa.Function]string // renamed function -> recorded identity
+	Renames        []string
+	Normalized     []string // new helpers inlined by the normalisation pre-pass (normalize.go)
+	addrTaken      map[*ssa.Function]bool
 	invokedMethods map[string]bool
-	importing map[*ssa.Function]bool
+	importing      map[*ssa.Function]bool
 }
 
 // currentProgram is the program being analysed (one per process); used to present renamed functions
@@ -273,6 +274,9 @@ func (p *Program) Pos(pos token.Pos) string {
 func instrPos(in ssa.Instruction) token.Pos {
 	if in == nil {
 		return token.NoPos
+	}
+	if rv := reflect.ValueOf(in); rv.Kind() == reflect.Ptr && rv.IsNil() {
+		return token.NoPos // a typed nil handed over as "no site"
 	}
 	if p := in.Pos(); p.IsValid() {
 		return p
